@@ -80,10 +80,10 @@ PROPS['C19'] = dict(title='Crate features and build profiles change nothing but 
                     streams=[('w1', 'S1', 12, 50), ('w1', 'S2', 10, 50), ('w1', 'S7', 12, 50), ('w1', 'S12', 10, 50), ('w1', 'S9', 8, 50), ('w3', 'S2', 10, 40), ('w3', 'S1', 8, 40)],
                     configs=['dbg-ev', 'dbg-wrap', 'rel', 'rel-plain', 'dbg-32'], need=['create'])
 PROPS['C15'] = dict(title='Archetype and component ids follow the discriminant rule and are unique',
-                    coq=['props/C15.vo'], tags=[15], macro=dict(cases=200, stress=True),
+                    coq=['props/C15.vo'], cfgprobe='rule', tags=[15], macro=dict(cases=200, stress=True),
                     streams=[('w2', 'H1', 10, 40)], configs=['dbg'], need=['conv'])
 PROPS['C16'] = dict(title='#[cfg]-disabled archetypes, components and query parameters behave as absent',
-                    coq=['props/C16.vo'], tags=[16], macro=dict(cases=200, stress=False), cfgprobe=True,
+                    coq=['props/C16.vo'], tags=[16], macro=dict(cases=200, stress=False), cfgprobe='cfg',
                     streams=[], configs=['dbg'], need=[])
 
 THOROUGH_CONFIGS = ['dbg', 'rel', 'dbg-ev', 'dbg-wrap', 'dbg-all', 'rel-plain', 'rel-ev', 'rel-all']
